@@ -128,7 +128,7 @@ type PContextRegexFunc interface {
 	// goverter:map A | MapWithCtx
 	M1(source InCtxF, ctxValue *Ctx) OutCtxF
 	// goverter:context ctxValue
-	// goverter:map A | MapWithCtx2
+	// goverter:map A | MapWithCtx
 	M2(source InCtxF2, ctxValue *Ctx) OutCtxF2
 }
 
